@@ -9,11 +9,13 @@
 /*
   The listing is read back by gensquashfs, which splits lines at spaces and
   tabs and, inside of a quoted token, understands \" and \\ only. Anything
-  that contains one of those characters has to be quoted and escaped.
+  that contains one of those characters has to be quoted and escaped. A
+  carriage return in front of the line feed is taken for part of the line
+  ending, so a token that ends in one must not be the last thing on the line.
  */
 static bool needs_quoting(const char *str)
 {
-	return str[0] == '\0' || strpbrk(str, " \t\"\\") != NULL;
+	return str[0] == '\0' || strpbrk(str, " \t\r\"\\") != NULL;
 }
 
 static void print_escaped(const char *str)
